@@ -126,6 +126,12 @@ func GenTimeoutWorld(ch *Choices, variant int, thorough bool) (*IntegWorld, stri
 			if ch.Bool(1, 2, "stage-dir") {
 				g.Stages[0].Dir = "/vs/t0dir"
 			}
+			if ch.Bool(1, 2, "named-context") {
+				// the task runs in a context from the configuration file (it only sets an environment
+				// variable): the timeout applies there as anywhere else
+				w.Contexts = []*CtxSpec{{Name: "cx"}}
+				w.Task("t0").Context = "cx"
+			}
 		}
 	}
 	return w, fmt.Sprintf("%s@%s", shape, id)
